@@ -222,7 +222,13 @@ theorem parse_prep (B : Nat) (ce : Gen.optSuffixArrayParser → Res Gen.optSuffi
     refine ⟨s, fun hc => absurd (show s.ParserBuffer.W + (nN : Int) > s.start + (s.edges.len : Int) from hc) (by omega),
       fun _ => rfl, hm, rfl, rfl, rfl, rfl, h.st0, h.ne0, h.stw, h.wedges, h.wq⟩
 
-set_option maxHeartbeats 1000000 in
+/-- decide the FIRST `if` of the goal (outermost, leftmost) from the context, whatever the spelling of its test
+    (operand order, `≠`/`=` with swapped arms, De Morgan) and whichever arm is taken; atoms like `iand flags 1` are opaque
+    to omega, `Int.ofNat` is normalised when plain omega fails -/
+macro "os_ite" : tactic =>
+  `(tactic| first | rw [if_pos (by omega)] | rw [if_neg (by omega)] | rw [if_pos (by int_omega)] | rw [if_neg (by int_omega)])
+
+set_option maxHeartbeats 2000000 in
 /-- **`Parse` = `parseOsapChk`**: whenever the range-checked model returns a result, the translated Go text returns
     its representation (no panic, no fuel exhaustion), and the invariant bundle holds again. -/
 theorem gen_osap_parse_sp (B : Nat) (grow : Nat → Nat → Nat) (fuel : Nat)
@@ -311,11 +317,13 @@ theorem gen_osap_parse_sp (B : Nat) (grow : Nat → Nat → Nat) (fuel : Nat)
     · unfold optSuffixArrayParser_Parse optSuffixArrayParser_Parse_nilable; simp only [Bool.false_eq_true]
       simp only [if_false]
       simp only [hnG, hnG']
-      rw [hs0, bind_ok, if_neg hn0]
+      rw [hs0, bind_ok]
+      try dsimp only
+      os_ite
       refine bind_trans (v := s1) ?_ ?_
       · by_cases hre : s.ParserBuffer.W + (nN : Int) > s.start + Int.ofNat s.edges.len
-        · rw [if_pos hre, hs1a hre, bind_ok]
-        · rw [if_neg hre, hs1b hre]
+        · os_ite; rw [hs1a hre, bind_ok]
+        · os_ite; rw [hs1b hre]
       try dsimp only
       rw [if_pos hz]
       rw [slice_okI s1.ParserBuffer.Data s1.ParserBuffer.W (s1.ParserBuffer.W + (nN : Int)) Wn (Wn + nN) hW1
@@ -384,11 +392,13 @@ theorem gen_osap_parse_sp (B : Nat) (grow : Nat → Nat → Nat) (fuel : Nat)
       unfold optSuffixArrayParser_Parse optSuffixArrayParser_Parse_nilable; simp only [Bool.false_eq_true]
       simp only [if_false]
       simp only [hnG, hnG']
-      rw [hs0, bind_ok, if_neg hn0]
+      rw [hs0, bind_ok]
+      try dsimp only
+      os_ite
       refine bind_trans (v := s1) ?_ ?_
       · by_cases hre : s.ParserBuffer.W + (nN : Int) > s.start + Int.ofNat s.edges.len
-        · rw [if_pos hre, hs1a hre, bind_ok]
-        · rw [if_neg hre, hs1b hre]
+        · os_ite; rw [hs1a hre, bind_ok]
+        · os_ite; rw [hs1b hre]
       try dsimp only
       rw [if_neg hz, gslice_ok s1.tmp 0 (0 : Int) 0 0 rfl rfl (Nat.le_refl 0) (Nat.zero_le _), bind_ok, hsp, bind_ok]
       try dsimp only
@@ -398,13 +408,12 @@ theorem gen_osap_parse_sp (B : Nat) (grow : Nat → Nat → Nat) (fuel : Nat)
       rw [hloop, bind_ok]
       try dsimp only
       by_cases hcnd : iand flags 1 ≠ 0 ∧ Int.ofNat blk2.Sequences.length > 0
-      · -- the two conjuncts of the Go test in either order
-        first
-          | rw [if_pos hcnd, if_pos hcnd, bind_ok]
-          | rw [if_pos hcnd.symm, if_pos hcnd, bind_ok]
-      · first
-          | rw [if_neg hcnd, if_neg hcnd]
-          | rw [if_neg (fun hc => hcnd hc.symm), if_neg hcnd]
+      · -- the Go test in any spelling (conjuncts in either order, De Morgan with the arms swapped, `<= 0` for `> 0`)
+        refine Eq.trans ?_ (if_pos hcnd).symm
+        os_ite
+        rw [bind_ok]
+      · refine Eq.trans ?_ (if_neg hcnd).symm
+        os_ite
         rw [slice_okI { arr := s1.ParserBuffer.Data.arr, len := Wn + nN } (Int.ofNat li2.toNat) (Int.ofNat (Wn + nN))
           li2.toNat (Wn + nN) rfl rfl hli2le
           (by show Wn + nN ≤ s1.ParserBuffer.Data.arr.length; rw [hD1]; omega), bind_ok, bind_ok]
